@@ -5,6 +5,7 @@ package main
 import (
 	"fmt"
 	"go/ast"
+	"go/constant"
 	"go/token"
 	"go/types"
 	"sort"
@@ -383,3 +384,161 @@ func condCallsOn(c ssa.Value, v ssa.Value, name string, seen map[ssa.Value]bool)
 }
 
 var _ = token.NoPos
+
+// ruleNumberSign (N-SIGN): the amount parser prepends the sign to the digit string BEFORE separator
+// normalisation (checked on SSA: the normaliser's argument depends on a concatenation with the constant
+// "-").  Under that precondition every zero / non-zero digit test the normaliser (or a helper it hands a
+// prefix of the string to) applies must treat the sign character as neutral, otherwise "-0.125" and
+// "0.125" are classified differently (one dot + three digits: group mark or decimal mark?) and the verdict
+// depends on sign placement.
+func ruleNumberSign(c *Ctx) {
+	ppk := c.P.SSAPkg("internal/parser")
+	var norm *ssa.Function
+	var normCall *ssa.Call
+	for _, f := range c.P.ModuleFuncs() {
+		if f.Pkg != ppk {
+			continue
+		}
+		for _, call := range findCalls(f, func(cal *ssa.Function) bool { return cal.Pkg != nil && cal.Pkg.Pkg.Path() == decimalPkg && cal.Name() == "NewFromString" }) {
+			for v := range backSlice(call.Common().Args[0]) {
+				if nc, ok := v.(*ssa.Call); ok {
+					if cal := nc.Common().StaticCallee(); cal != nil && cal.Pkg == ppk && cal.Signature.Params().Len() == 1 && cal.Signature.Results().Len() == 1 &&
+						types.TypeString(cal.Signature.Params().At(0).Type(), nil) == "string" && types.TypeString(cal.Signature.Results().At(0).Type(), nil) == "string" && len(cal.Blocks) > 3 {
+						norm, normCall = cal, nc
+					}
+				}
+			}
+		}
+	}
+	if norm == nil {
+		c.undecided("N-SIGN", "parser", "number normaliser", token.NoPos, "no string->string normaliser feeding decimal.NewFromString found")
+		return
+	}
+	signed := false
+	for v := range backSlice(normCall.Common().Args[0]) {
+		if bin, ok := v.(*ssa.BinOp); ok && bin.Op == token.ADD {
+			for _, op := range []ssa.Value{bin.X, bin.Y} {
+				if k, ok := op.(*ssa.Const); ok && k.Value != nil && k.Value.Kind() == constant.String && constant.StringVal(k.Value) == "-" {
+					signed = true
+				}
+			}
+		}
+	}
+	nname := funcName(norm)
+	if !signed {
+		c.ok("N-SIGN", nname, "sign handling in the number normaliser", norm.Pos(), "the sign is not part of the string handed to the normaliser")
+		return
+	}
+	// AST walk over the normaliser and the module helpers it passes (a prefix of) its string to
+	pk := c.P.ByRel["internal/parser"]
+	info := pk.TypesInfo
+	var start *ast.FuncDecl
+	for obj, fd := range c.P.declOf {
+		if obj.Pkg() == pk.Types && obj.Name() == norm.Name() && fd.Recv == nil {
+			start = fd
+		}
+	}
+	if start == nil {
+		c.undecided("N-SIGN", nname, "declaration", token.NoPos, "declaration of the normaliser not found")
+		return
+	}
+	seen := map[*ast.FuncDecl]bool{}
+	n := 0
+	var visit func(fd *ast.FuncDecl, depth int)
+	visit = func(fd *ast.FuncDecl, depth int) {
+		if seen[fd] || depth > 3 {
+			return
+		}
+		seen[fd] = true
+		fname := c.P.declName(fd)
+		mentionsSign := func(e ast.Node) bool {
+			found := false
+			ast.Inspect(e, func(x ast.Node) bool {
+				if bl, ok := x.(*ast.BasicLit); ok {
+					if bl.Kind == token.CHAR && bl.Value == "'-'" {
+						found = true
+					}
+					if bl.Kind == token.STRING && strings.Contains(bl.Value, "-") {
+						found = true
+					}
+				}
+				return true
+			})
+			return found
+		}
+		// conditions that compare a byte with '0'
+		var conds []ast.Expr
+		ast.Inspect(fd.Body, func(x ast.Node) bool {
+			switch s := x.(type) {
+			case *ast.IfStmt:
+				conds = append(conds, s.Cond)
+			case *ast.ForStmt:
+				if s.Cond != nil {
+					conds = append(conds, s.Cond)
+				}
+			case *ast.ReturnStmt:
+				for _, r := range s.Results {
+					conds = append(conds, r)
+				}
+			case *ast.AssignStmt:
+				for _, r := range s.Rhs {
+					if t := info.TypeOf(r); t != nil && types.TypeString(t, nil) == "bool" {
+						conds = append(conds, r)
+					}
+				}
+			case *ast.CaseClause:
+				conds = append(conds, s.List...)
+			}
+			return true
+		})
+		for _, cond := range conds {
+			zeroTest := false
+			ast.Inspect(cond, func(x ast.Node) bool {
+				switch e := x.(type) {
+				case *ast.BinaryExpr:
+					if e.Op == token.EQL || e.Op == token.NEQ {
+						for _, side := range []ast.Expr{e.X, e.Y} {
+							if bl, ok := ast.Unparen(side).(*ast.BasicLit); ok && bl.Kind == token.CHAR && bl.Value == "'0'" {
+								zeroTest = true
+							}
+						}
+					}
+				case *ast.CallExpr:
+					q := qualName(calleeOf(info, e))
+					if strings.HasPrefix(q, "strings.Trim") && len(e.Args) == 2 {
+						if s, ok := stringConst(info, e.Args[1]); ok && strings.Contains(s, "0") {
+							zeroTest = true
+						}
+					}
+				}
+				return true
+			})
+			if !zeroTest {
+				continue
+			}
+			n++
+			c.check(mentionsSign(cond), "N-SIGN", fname, "zero-digit test ignores the sign", cond.Pos(),
+				"the test that decides whether the integer part is only zeros also skips '-' (`"+exprStr(c.P.Fset, cond)+"`)",
+				"the amount parser prepends '-' to the digits before normalising, but this test of the integer part (`"+exprStr(c.P.Fset, cond)+"`) treats the sign as a significant digit: \"-0.125\" is read as -125 while \"0.125\" stays 0.125, so the balance verdict depends on the sign")
+		}
+		// helpers that receive the string or a prefix of it
+		ast.Inspect(fd.Body, func(x ast.Node) bool {
+			call, ok := x.(*ast.CallExpr)
+			if !ok {
+				return true
+			}
+			if fn, ok := calleeOf(info, call).(*types.Func); ok && fn.Pkg() == pk.Types {
+				if d := c.P.declOf[fn]; d != nil && d != fd {
+					for _, a := range call.Args {
+						if t := info.TypeOf(a); t != nil && types.TypeString(t, nil) == "string" {
+							visit(d, depth+1)
+						}
+					}
+				}
+			}
+			return true
+		})
+	}
+	visit(start, 0)
+	c.census("N-SIGN", "zero-digit tests in the number normaliser", n, 1)
+}
